@@ -648,7 +648,77 @@ agraph (float[{n},4] data, {upd}{idx_in}) => (float[{n},4] y)
 }}"""
 
 
+def fam_user_rules(rng: Rng) -> str:
+    """Models for the user-written rules of dsim/c14/userrules.py: each member contains the sub-graphs of one or several of
+    those rules, with varied shapes and constants; some end in a sub-graph on which a user check() or rewrite() raises, after
+    other rules of the same set have already fired in the traversal."""
+    a, b = rng.choice([(4, 8), (2, 6), (3, 3), (8, 2)])
+    c = rng.choice(["2.0", "0.5", "-1.5", "3.0"])
+    d = rng.choice(["0.25", "4.0", "-2.0", "1.5"])
+    v = _variant(rng, [("addmul", 2), ("addmul_twice", 2), ("addtr", 1), ("sub", 2), ("scale", 2), ("sincos", 1), ("absor", 1),
+                      ("pow2", 1), ("pow13_tail", 2), ("sqrt_rank3_tail", 2), ("combo", 3), ("combo_pow13", 2)])
+    shp = f"float[{a},{b}]"
+    ins = [f"{shp} x", f"{shp} y", f"{shp} z"]
+    inits, body, outs = [], [], []
+
+    def part(name):
+        k = len(outs)
+        if name == "addmul":
+            body.extend([f"s{k} = Add(x, y)", f"o{k} = Mul(s{k}, z)"])
+        elif name == "addmul2":
+            body.extend([f"s{k} = Add(z, x)", f"o{k} = Mul(s{k}, y)"])
+        elif name == "sub":
+            body.extend([f"n{k} = Neg(y)", f"o{k} = Add({'n%d, x' % k if rng.chance(0.5) else 'x, n%d' % k})"])
+        elif name == "scale":
+            inits.extend([f"float c{k} = {{{c}}}", f"float d{k} = {{{d}}}"])
+            body.extend([f"m{k} = Mul({'x, c%d' % k if rng.chance(0.5) else 'c%d, x' % k})", f"o{k} = Mul(m{k}, d{k})"])
+        elif name == "absor":
+            body.extend([f"r{k} = {rng.choice(['Relu', 'Abs'])}(x)", f"o{k} = Abs(r{k})"])
+        elif name == "pow2":
+            inits.append(f"float e{k} = {{2.0}}")
+            body.append(f"o{k} = Pow(x, e{k})")
+        elif name == "pow13":
+            inits.append(f"float e{k} = {{13.0}}")
+            body.append(f"o{k} = Pow(y, e{k})")
+        outs.append(f"{shp} o{k}")
+
+    if v == "addtr":
+        return f"""<ir_version: 10, opset_import: ["" : 20]>
+agraph ({shp} x, {shp} y) => (float[{b},{a}] out)
+{{
+   s = Add(x, y)
+   out = Transpose <perm = [1, 0]> (s)
+}}"""
+    if v == "sincos":
+        return f"""<ir_version: 10, opset_import: ["" : 20]>
+agraph ({shp} x) => ({shp} s, {shp} c)
+{{
+   s = Sin(x)
+   c = Cos(x)
+}}"""
+    if v == "sqrt_rank3_tail":
+        return f"""<ir_version: 10, opset_import: ["" : 20]>
+agraph (float[2,{a},{b}] x, float[2,{a},{b}] y, float[2,{a},{b}] z) => (float[2,{a},{b}] o, float[2,{a},{b}] p)
+{{
+   s = Add(x, y)
+   p = Mul(s, z)
+   q = Sqrt(x)
+   o = Sqrt(q)
+}}"""
+    for name in {"addmul": ["addmul"], "addmul_twice": ["addmul", "addmul2"], "sub": ["sub"], "scale": ["scale"], "absor": ["absor"],
+                 "pow2": ["pow2"], "pow13_tail": ["addmul", "pow13"], "combo": ["addmul", "sub", "scale", "absor", "pow2"],
+                 "combo_pow13": ["scale", "addmul", "sub", "pow13"]}[v]:
+        part(name)
+    init_txt = f"<{', '.join(inits)}>\n" if inits else ""
+    return f"""<ir_version: 10, opset_import: ["" : 20]>
+agraph ({", ".join(ins)}) => ({", ".join(outs)})
+{init_txt}{{
+   {chr(10).join('   ' + ln for ln in body).strip()}
+}}"""
+
+
 FAMILIES = {
+    "user_rules": fam_user_rules,
     "pad_conv": fam_pad_conv, "pad_conv_tail": fam_pad_conv_fail_tail, "reshape_reshape": fam_reshape_reshape,
     "flatten": fam_flatten, "cast_cast": fam_cast_cast, "transpose": fam_transpose, "minmax": fam_minmax,
     "clip_relu": fam_clip_relu, "unsqueeze": fam_unsqueeze, "bn_conv": fam_batchnorm_conv, "bn_gemm": fam_batchnorm_gemm,
@@ -686,7 +756,7 @@ agraph ({xdecl}, float[{a * b}] z) => (float[?,?] out)
 
 # families whose members walk through declared variants: a batch takes one member per variant (capped), so that every
 # special path of the rule's check() is in every batch; other families vary only in parameters and get 3 members
-N_VARIANTS = {"hardswish": 7, "conv_affine": 5, "expand_binary": 5, "reshape_matmul": 7, "scatter_nd": 4, "rms_norm": 4, "pad_conv": 12, "reshape_reshape": 8, "fold_chain": 10, "slice_split": 7, "const_if": 7}
+N_VARIANTS = {"user_rules": 12, "hardswish": 7, "conv_affine": 5, "expand_binary": 5, "reshape_matmul": 7, "scatter_nd": 4, "rms_norm": 4, "pad_conv": 12, "reshape_reshape": 8, "fold_chain": 10, "slice_split": 7, "const_if": 7}
 
 
 def members_per_batch(family: str, default: int, cap: int = 10) -> int:
